@@ -259,14 +259,23 @@ def selector_battery(ctx, tag, ih, tuples, info, full=True, containers=True):
             continue
         if containers and len(set(exp)) == len(exp) and tree_ordered([tuples[p] for p in exp]):
             try:
+                # a selector that is a list, slice or mask at any level asks for a set of rows: the result keeps its dimension even when one row matches
+                multi = any(k != 'label' for k, _ in combo)
                 r = ser.loc[key]
                 gv = [int(r)] if not isinstance(r, sf.Series) else r.values.tolist()
                 if gv != exp:
                     ctx.violation(f'{tag}|Series.loc[HLoc]|{kinds}', **sinfo, got=gv, expected=exp)
+                elif multi != isinstance(r, sf.Series):
+                    ctx.violation(f'{tag}|Series.loc[HLoc]|{kinds}|dimension', **sinfo, got=type(r).__name__, non_scalar_selector=multi)
                 r = frc.loc[:, key]
                 gv = r.values[0].tolist() if isinstance(r, sf.Frame) else ([int(r.values[0])] if isinstance(r, sf.Series) else None)
                 if gv != exp:
                     ctx.violation(f'{tag}|Frame.loc[:,HLoc]|{kinds}', **sinfo, got=gv, expected=exp)
+                elif multi != isinstance(r, sf.Frame):
+                    ctx.violation(f'{tag}|Frame.loc[:,HLoc]|{kinds}|dimension', **sinfo, got=type(r).__name__, non_scalar_selector=multi)
+                r = ih.loc[key]
+                if multi != isinstance(r, sf.IndexHierarchy) or (multi and [tuple(t) for t in r] != [tuples[p] for p in exp]) or (not multi and tuple(r) != tuples[exp[0]]):
+                    ctx.violation(f'{tag}|IndexHierarchy.loc[HLoc]|{kinds}|labels-or-dimension', **sinfo, got=repr(r)[:200])
             except Exception as e:
                 ctx.violation(f'{tag}|container.loc[HLoc]|{kinds}|raises-{type(e).__name__}', **sinfo, expected=exp, error=repr(e))
     # full tuples and lists of tuples
